@@ -1316,6 +1316,10 @@ GROUP_OPS = {
     'new_combinations_with_replacement(2,2)': (lambda F: F.new_combinations_with_replacement(2, 2), 3),
     'new_permutations(3,2)': (lambda F: F.new_permutations(3, 2), 6),
     'new_words(2,2)': (lambda F: F.new_words(2, 2), 4),
+    # more positions than elements: legal when repetitions are allowed
+    'new_words(2,3)': (lambda F: F.new_words(2, 3), 8),
+    'new_combinations_with_replacement(2,3)': (lambda F: F.new_combinations_with_replacement(2, 3), 4),
+    'new_combinations(2,3)': (lambda F: F.new_combinations(2, 3), 0),
     # boundary k = 0: exactly one (empty) index, hence one variable
     'new_permutations(3,0)': (lambda F: F.new_permutations(3, 0), 1),
     'new_combinations(3,0)': (lambda F: F.new_combinations(3, 0), 1),
@@ -1469,6 +1473,7 @@ ALPHABETS['full'] = ALPHABETS['core'] + [
 ALPHABETS['ext'] = ALPHABETS['full'] + [
     'new_variable(label)', 'new_block(3,0,2)', 'new_combinations_with_replacement(2,2)',
     'new_permutations(3,2)', 'new_words(2,2)', 'new_mapping(0,3)', 'new_binary_mapping(3,1)',
+    'new_words(2,3)', 'new_combinations_with_replacement(2,3)', 'new_combinations(2,3)',
     'new_permutations(3,0)', 'new_combinations(3,0)', 'new_words(2,0)', 'new_permutations(3)',
     'new_bipartite_edges(B)', 'new_digraph_edges(D,pred)', 'new_digraph_edges(D,succ)',
     'update_variable_number(nv-1)', 'cardinality_leq((nv+1,nv+2,nv+3),1)',
@@ -1784,6 +1789,11 @@ def run_controls(args, R):
                         R.stats['control_monitor_alarm_on_legal_history'] += 1
                 elif expect in got or refused is not None:
                     R.stats['control_monitor_detected'] += 1
+                elif not (F._groups and handed_ids(F._groups[-1])):
+                    # the operation created no variable at all although some are
+                    # documented: nothing the monitor could see here; the BFS
+                    # reports that as a violation with a replayable history
+                    R.stats['control_not_applicable_group_is_empty'] += 1
                 else:
                     raise AssertionError('monitor missed the reuse control %s/%s: %r' % (cls, name, got))
         # oracle controls
